@@ -912,7 +912,7 @@ impl<'a> Searcher<'a> {
 
     fn negate_value(value: Variant) -> Variant {
         match value.get_type() {
-            VariantType::Int => Variant::from_int(-value.to_int()),
+            VariantType::Int => Variant::from_int(value.to_int().wrapping_neg()),
             VariantType::Float => Variant::from_float(-value.to_float()),
             _ => value,
         }
